@@ -20,6 +20,8 @@ func pfxFields(b mp4.Box) string {
 		return fmt.Sprintf("cnt:%d:%x:%d:[%s]", x.Version, x.Flags, x.TrackID, kidsDump(x.Children, false))
 	case *mp4.WvttBox:
 		return fmt.Sprintf("wvtt:%d:[%s]", x.DataReferenceIndex, kidsDump(x.Children, true))
+	case *mp4.MetaBox:
+		return fmt.Sprintf("meta:%c:%d:%x:[%s]", boolc(x.IsQuickTime()), x.Version, x.Flags, kidsDump(x.Children, true))
 	case *mp4.EvteBox:
 		return fmt.Sprintf("evte:%d:[%s]", x.DataReferenceIndex, kidsDump(x.Children, true))
 	case *mp4.StppBox:
@@ -95,6 +97,19 @@ func genC3Inputs(r *hx.Rng, n int) [][]byte {
 			return box("trep", u32(uint32(r.Pick(0, 0x01000001))), u32(uint32(r.Pick(1, 2, 0xffffffff))), pfxKids(r, k))
 		case "wvtt":
 			return box("wvtt", make([]byte, 6), u16(uint16(r.Pick(1, 0, 0xffff))), pfxKids(r, k))
+		case "meta":
+			// ISO form (version/flags word) or QuickTime form (children at once); a first child named hdlr in both forms, or none.
+			// The hdlr child is rendered as an UNKNOWN-type leaf of the same layout for the model ("hdlr" is a typed box in Go: it must decode)
+			hd := box("hdlr", u32(0), u32(0), []byte([]string{"mdir", "mdta"}[r.Intn(2)]), make([]byte, 12), []byte{0})
+			var kids []byte
+			if r.Intn(4) > 0 {
+				kids = hd
+			}
+			kids = cat(kids, pfxKids(r, k))
+			if r.Intn(3) == 0 {
+				return box("meta", kids)
+			}
+			return box("meta", u32(uint32(r.Pick(0, 0, 1, 0x01000000))), kids)
 		case "evte":
 			return box("evte", make([]byte, 6), u16(uint16(r.Pick(1, 0, 0xffff))), pfxKids(r, k))
 		case "stpp":
@@ -111,7 +126,7 @@ func genC3Inputs(r *hx.Rng, n int) [][]byte {
 		}
 		return box(name, aseFixed(r), pfxKids(r, k))
 	}
-	names := []string{"dref", "trep", "wvtt", "mp4a", "enca", "ac-3", "ec-3", "evte", "stpp"}
+	names := []string{"dref", "trep", "wvtt", "mp4a", "enca", "ac-3", "ec-3", "evte", "stpp", "meta"}
 	for i, nm := range names {
 		for k := 0; k <= 3; k++ {
 			for rep := 0; rep < 2; rep++ {
@@ -135,11 +150,6 @@ func genC3Inputs(r *hx.Rng, n int) [][]byte {
 			emit(b)
 			emit(cat(b, r.Bytes(60, nil)))
 		}
-	}
-	// meta (ISO: version/flags word; QuickTime: children at once) for the encoder pair (M lines); its decoder pair stays explored
-	for k := 0; k <= 2; k++ {
-		emit(box("meta", u32(0), box("hdlr", u32(0), u32(0), []byte("mdir"), make([]byte, 12), []byte{0}), pfxKids(r, k)))
-		emit(box("meta", box("hdlr", u32(0), u32(0), []byte("mdta"), make([]byte, 12), []byte{0}), pfxKids(r, k)))
 	}
 	// dref with a lying entry count
 	for _, d := range []int{1, -1, 1 << 20} {
